@@ -11,20 +11,26 @@ PROPS["C17"] = dict(
     technique="runtime model-based monitor: relational reference model (routes x VRFs x memberships) vs ListPath(GLOBAL/VRF) and per-peer accumulated wire views at exact quiescence (synctest.Wait)",
     rule="case = one history (1-2 PE, 1-2 RTC, 0-2 CE speakers of kinds RR client / eBGP, with and without ADD-PATH receive and rtc deferral; 40-200 events: "
          "VPN announce/replace/withdraw/duplicate, membership announce/withdraw incl. default, duplicates, other origin AS, never-announced, import-policy "
-         "rejected; AddVrf/DeleteVrf; API routes global and in a VRF; CE routes; flaps; ticks), compared every 5-20 events; a comparison is non-trivial "
+         "rejected; AddVrf/DeleteVrf; API routes global and in a VRF; CE routes; flaps, for half of the PE speakers with graceful restart negotiated (routes retained as stale copies until the "
+         "restart timer or the returning speaker's End-of-RIBs); soft-reset-in of any neighbour, with and without an attribute-modifying import policy; ticks), compared every 5-20 events; a comparison is non-trivial "
          "iff >=1 membership or VRF change happened since the previous one; distinct by hash of (change-kind sequence, peer configuration)",
     assumptions=["route targets are compared by their 8 octets; 'transitive' is bit 0x40 of the type octet clear (RFC 4360/7153)",
                  "an RT membership counts when the import policy accepts it; the default membership is the zero-length NLRI 0:0/0",
                  "a speaker never gets back the best route it announced itself (normal export rule); all iBGP speakers are route-reflector clients; all eBGP speakers have distinct AS numbers",
                  "DeleteVrf is only exercised on VRFs without attached neighbours (gobgp refuses it otherwise); API routes outside a VRF never carry the RD of a local VRF",
                  "without zebra a VRF's label is 0 (Vrf.MplsLabel is read white-box as 'the VRF's label')",
+                 "graceful restart as RFC 4724 helper: routes of a speaker that went down abruptly stay until its restart time is over or, once it is back, "
+                 "until its End-of-RIB markers; routes still stale at a second restart go at once; no long-lived graceful restart; at the exact instant of the "
+                 "restart timer gobgp's own PeerRestarting state decides whether the speaker was back in time",
+                 "soft-reset-in changes nothing that is observable",
                  "net.Pipe transports, hold time 0"],
     must_count=["comparisons", "comparisons_nontrivial", "membership_changes", "vrf_changes", "vrf_table_comparisons", "routes_compared_global",
                 "routes_compared_vrf_table", "routes_compared_rtc-peer", "routes_compared_pe-peer", "routes_compared_ce-peer",
                 "vrf_originated_routes_checked", "peer_comparisons_in_deferral",
                 "ev_vpn-announce", "ev_vpn-withdraw", "ev_vpn-duplicate", "ev_rtm-announce", "ev_rtm-withdraw", "ev_rtm-default-announce",
                 "ev_rtm-withdraw-never-announced", "ev_rtm-announce-rejected-by-policy", "ev_rtc-eor", "ev_addvrf", "ev_delvrf",
-                "ev_delvrf-with-local-routes", "ev_api-add-global", "ev_api-add-vrf", "ev_ce-announce", "ev_ce-withdraw", "ev_flap", "ev_reestablish",
+                "ev_delvrf-with-local-routes", "ev_api-add-global", "ev_api-add-vrf", "ev_ce-announce", "ev_ce-withdraw", "ev_flap", "ev_reestablish", "ev_flap-graceful", "ev_gr-back-in-time", "ev_gr-timer-expired",
+                "ev_gr-eor-ends-restart", "ev_soft-reset-in", "histories_with_modifying_import_policy",
                 "ev_fam-l3vpn-ipv4-unicast", "ev_fam-l2vpn-evpn"],
     min_nontrivial=20,
     units=[dict(name="sim", harness="t_server", files=["sim_", "c17_"], run="TestVerifC17",
